@@ -231,7 +231,8 @@ def ref_eval(body, cfgs):
 def _cfg_chunk(chunk):
     from mesonbuild.cargo.cfg import eval_cfg
     from mesonbuild.utils.core import MesonException
-    CFGS = [{}, {'a': 'a'}, {'n': 'y', 'y': ''}, {'a': '', 'n': 'a', 'y': 'y'}, {'a': 'n', 'y': 'a y'}]
+    # several configurations share their key set and differ only in values (the result must depend on the values given NOW)
+    CFGS = [{}, {'a': 'a'}, {'a': 'n'}, {'n': 'y', 'y': ''}, {'n': 'a', 'y': 'y'}, {'a': '', 'n': 'a', 'y': 'y'}, {'a': 'n', 'y': 'a y'}, {'a': 'y', 'y': 'a'}]
     fails, nt = [], 0
     for body in chunk:
         for cfgs in CFGS:
@@ -252,7 +253,7 @@ def _cfg_chunk(chunk):
                 nt += 1
             if got != exp:
                 fails.append({'case': {'raw': 'cfg(' + body + ')', 'cfgs': cfgs}, 'stage': 'cfg', 'detail': f'eval_cfg gives {got!r}, reference gives {exp!r}'})
-    return len(chunk) * 5, nt, fails
+    return len(chunk) * len(CFGS), nt, fails
 
 
 def run_cfg(tier, seed, jobs):
@@ -261,7 +262,7 @@ def run_cfg(tier, seed, jobs):
     words = ['a', 'n', 'y', 'all', 'any', 'not', ' ', '"', '(', ')', ',', '=']
     gen = itertools.chain(strings(alpha, n), (''.join(t) for k in range(1, (6 if tier == 'quick' else 7)) for t in itertools.product(words, repeat=k)))
     ev, nt, fails = pmap(_cfg_chunk, chunked(gen, 20000), jobs)
-    return {'name': 'C20/bounded/eval_cfg==reference', 'function': 'eval_cfg', 'bound': f'all bodies of <= {n} characters over {alpha!r} and all bodies of <= {5 if tier == "quick" else 6} words over {words!r}, x 5 configurations',
+    return {'name': 'C20/bounded/eval_cfg==reference', 'function': 'eval_cfg', 'bound': f'all bodies of <= {n} characters over {alpha!r} and all bodies of <= {5 if tier == "quick" else 6} words over {words!r}, x 8 configurations (several with the same names and different values, evaluated one after the other in one process)',
             'evaluations': ev, 'distinct_nontrivial': nt, 'rule': 'non-trivial: well-formed per the reference grammar', 'exhaustive': True, 'failures': fails}
 
 
